@@ -129,13 +129,14 @@ fn cmd_check(a: &[String]) -> Result<u8, String> {
             let st2 = Command::new(&exe).args(["child", &id, &tier, "--markers", &mpath]).status().map_err(|e| e.to_string())?;
             if matches!(st2.code(), Some(0 | 1 | 2)) {
                 let _ = std::fs::remove_file(&mpath);
-                return Err(format!("child died abnormally once ({other:?}) but not when re-run; not reproducible"));
+                return nondeterministic_death(&id, seed, &tier, &format!("{status:?}"), None);
             }
             let bytes = std::fs::read(&mpath).unwrap_or_default();
             let _ = std::fs::remove_file(&mpath);
             let mut cands: Vec<u64> = bytes.chunks_exact(8).map(|c| u64::from_le_bytes(c.try_into().unwrap())).filter(|x| *x != 0).map(|x| x - 1).collect();
             cands.sort_unstable();
             cands.dedup();
+            let cands_first = cands.first().copied();
             for idx in cands {
                 let st = Command::new(&exe).args(["runone", &id, &tier, &idx.to_string()]).status().map_err(|e| e.to_string())?;
                 if !matches!(st.code(), Some(0 | 1 | 2)) {
@@ -148,9 +149,28 @@ fn cmd_check(a: &[String]) -> Result<u8, String> {
                     return Ok(1);
                 }
             }
-            Err("child died abnormally but no single in-flight run reproduces the death".into())
+            nondeterministic_death(&id, seed, &tier, &format!("{st2:?}"), cands_first)
         }
     }
+}
+
+/// The batch died on a signal but the death does not reproduce deterministically. The harness itself is safe Rust
+/// with no clock, thread race or randomness in any decision (proved by `determinism`), so a SIGSEGV / SIGABRT /
+/// SIGBUS / SIGILL / SIGFPE that comes and goes can only be undefined behaviour or memory exhaustion in the code
+/// under test: reported as a violation. (SIGKILL is not: the OOM killer or an operator may send it.)
+fn nondeterministic_death(id: &str, seed: u64, tier: &str, status: &str, cand: Option<u64>) -> Result<u8, String> {
+    let memsig = ["signal: 6", "signal: 11", "signal: 7", "signal: 4", "signal: 8", "unix_wait_status(6)", "unix_wait_status(11)", "unix_wait_status(134)", "unix_wait_status(139)", "unix_wait_status(7)", "unix_wait_status(4)", "unix_wait_status(8)"];
+    if !memsig.iter().any(|m| status.contains(m)) {
+        return Err(format!("child died abnormally ({status}) and the death is not reproducible"));
+    }
+    let sc = scenario(id)?;
+    let idx = cand.unwrap_or(0);
+    let plan = sc.plan(seed, idx, Tier::parse(tier).unwrap());
+    let path = engine::replay_path(id, seed, idx, "crash-nondeterministic");
+    engine::write_replay(&path, &plan, &Violation::new(&format!("{id}/crash-nondeterministic"), "process-death", format!("the batch died with {status}; re-running it did not die the same way. One of the in-flight plans is attached; the death is not tied to a single plan (memory corruption)")))?;
+    println!("VIOLATION property={id} replay={path}");
+    println!("  class={id}/crash-nondeterministic: the process running the batch died with {status} and the death does not reproduce deterministically — only undefined behaviour or memory exhaustion in the code under test can do that here (see DESIGN.md §3.6); `./check {id} thorough` re-executes a plan sample under Miri for C01");
+    Ok(1)
 }
 
 fn cmd_runone(a: &[String]) -> Result<u8, String> {
@@ -225,6 +245,28 @@ fn cmd_child(a: &[String]) -> Result<u8, String> {
             fv = v.clone();
         }
         if !ok {
+            // Same plan, same code, different outcome. Re-execute in this process a few times: if the outcomes vary here
+            // too, the code under test is nondeterministic (it has no clock, threads or randomness, so that means
+            // uninitialised / dangling memory) — a violation in its own right. Otherwise it is the harness's problem.
+            let mut outcomes = Vec::new();
+            for _ in 0..4 {
+                let mut st = Stats::default();
+                outcomes.push(match engine::run_one(&*sc, plan, &mut st) {
+                    RunResult::Ok => format!("ok:{:x}", st.outcome),
+                    RunResult::Violation(v2) => format!("{}:{:x}", v2.class, st.outcome),
+                    RunResult::HarnessError(e) => format!("harness:{e}"),
+                });
+            }
+            let varies = outcomes.iter().any(|o| *o != outcomes[0]) || !outcomes[0].starts_with(&v.class);
+            if varies {
+                let nv = Violation::new(&format!("{id}/nondeterministic-outcome"), "nondeterministic", format!("the plan of run {idx} gave different outcomes when executed repeatedly ({outcomes:?}; first seen: {}). rosu-map reads no clock, spawns no thread and draws no randomness, so identical input must give identical results; differing results mean uninitialised or dangling memory is being read", v.class));
+                let path = engine::replay_path(&id, seed, *idx, "nondeterministic");
+                engine::write_replay(&path, plan, &nv)?;
+                println!("VIOLATION property={id} replay={path}");
+                println!("  class={} run={idx}\n  {}", nv.class, nv.detail);
+                reported.push((nv.class.clone(), path, nv.detail.clone()));
+                continue;
+            }
             eprintln!("HARNESS-ERROR: violation {} of run {idx} does not reproduce from its replay file {path} in a fresh process (nondeterminism)", v.class);
             return Ok(2);
         }
